@@ -276,7 +276,10 @@ func H03c_Flip() {
 // H03c_Burst: a burst of changed bits no longer than the CRC width (a non-zero pattern XORed over w consecutive
 // bytes inside one block's content, leaving every CBOR header byte as it was) is rejected.
 func H03c_Burst() {
-	which := verif.Choose("tmpl", 4)
+	which := verif.Param("tmpl", -1) // one template per configuration entry
+	if which < 0 {
+		which = verif.Choose("tmpl", 4)
+	}
 	t := tmplCRCBundle(which)
 	var w bytes.Buffer
 	if t.WriteBundle(&w) != nil {
@@ -289,6 +292,9 @@ func H03c_Burst() {
 		width = 4
 	}
 	pos := verif.Size("pos", 1, len(enc)-1-width)
+	if shards := verif.Param("shards", 1); shards > 1 {
+		verif.Assume(pos%shards == verif.Param("shard", 0))
+	}
 	pat := verif.Bytes("pat", width)
 	nz := false
 	for _, p := range pat {
@@ -303,5 +309,56 @@ func H03c_Burst() {
 	verif.Observe("in", in)
 	_, err := ParseBundle(bytes.NewReader(in))
 	verif.Assert(err != nil, "burst no longer than the CRC width is rejected")
+	verif.Reach("end")
+}
+
+// H03b_FieldLength: the CRC field is a byte string whose length is not fixed by the framing: for a primary block and
+// for canonical blocks the field of a correct encoding is replaced by a byte string of 0..5 arbitrary bytes (the rest
+// of the encoding unchanged): the block is accepted only if the field has exactly the width of the declared CRC type
+// and its value equals the CRC of the received bytes - surplus, missing or padded bytes are rejected. (A field of
+// another length changes the bytes the CRC covers, so the expected value is computed over the encoding with a zeroed
+// field of the correct width - which is what a correct decoder can only ever accept.)
+func H03b_FieldLength() {
+	registerRoutingBlocks()
+	primary := verif.Bool("primary")
+	t := CRCType(1 + verif.Choose("t", 2))
+	var enc []byte
+	if primary {
+		pb := symPrimarySmall(true, 2)
+		pb.CRCType = t
+		var w bytes.Buffer
+		verif.Assume(pb.MarshalCbor(&w) == nil)
+		enc = append([]byte{}, w.Bytes()...)
+	} else {
+		cb := CanonicalBlock{BlockNumber: symU64w("bn", false), BlockControlFlags: BlockControlFlags(symU64w("bcf", false)), CRCType: t,
+			Value: symBlockValue("v", verif.Choose("kind", 3), false)}
+		var w bytes.Buffer
+		verif.Assume(cb.MarshalCbor(&w) == nil)
+		enc = append([]byte{}, w.Bytes()...)
+	}
+	n := 2
+	if t == CRC32 {
+		n = 4
+	}
+	want := crcOver(enc, t)
+	verif.Assert(enc[len(enc)-n-1] == byte(0x40+n), "layout: the CRC field is the trailing byte string")
+	l := verif.Size("fieldlen", 0, 5)
+	val := verif.Bytes("val", l)
+	in := append([]byte{}, enc[:len(enc)-n-1]...)
+	in = append(in, byte(0x40+l))
+	in = append(in, val...)
+	var err error
+	if primary {
+		var pb2 PrimaryBlock
+		err = pb2.UnmarshalCbor(bytes.NewReader(in))
+	} else {
+		var cb2 CanonicalBlock
+		err = cb2.UnmarshalCbor(bytes.NewReader(in))
+	}
+	if l != n {
+		verif.Assert(err != nil, "a CRC field whose length is not the width of the declared CRC type is rejected")
+	} else {
+		verif.Assert(verif.Iff(err == nil, bytes.Equal(val, want)), "accepted iff the transmitted value is the CRC of the received bytes")
+	}
 	verif.Reach("end")
 }
